@@ -514,6 +514,9 @@ impl TCheck for C07 {
         let mut knobs = knobs;
         if read_faults {
             knobs.push(("file_read_fail_pm", 15));
+            // ... and now and then there is no memory for a decoder context when a cluster is
+            // first decoded (the next attempt works again)
+            knobs.push(("decoder_build_fail_pm", 300));
             knobs.push(("env_fault_seed", rng.next_u64() >> 1));
         }
         let readers = rng.range(2, 4) as usize;
